@@ -234,7 +234,7 @@ pub fn check(run: &Run) -> Value {
     let b = crate::sweeps::bounds(run.tier);
     let cases = crate::sweeps::c01_cases(&b);
     let seed = run.seed;
-    let total: SweepOut = run_cases(&cases, &|i, desc, out| {
+    let mut total: SweepOut = run_cases(&cases, &|i, desc, out| {
         out.nontrivial += 1;
         for c in Compression::all() {
             out.executions += 1;
@@ -248,9 +248,12 @@ pub fn check(run: &Run) -> Value {
             out.samples.push(serde_json::to_string(desc).unwrap());
         }
     });
+    let (c0, e0) = (total.cases, total.executions);
+    let scalar = crate::scalar::sweep(run, crate::scalar::Which::WriterVsSpec, &mut total);
     total.report(run);
-    println!("C03 sweep: cases={} files={} outcomes={:?} doc_vectors={}", total.cases, total.executions, total.outcomes, vectors);
+    println!("C03 sweep: cases={} files={} outcomes={:?} doc_vectors={} scalar={}", c0, e0, total.outcomes, vectors, scalar);
     json!({
+        "scalar_sweep": scalar,
         "states": total.cases,
         "transitions": total.executions,
         "traces_validated_against_impl": total.executions,
